@@ -175,7 +175,45 @@ class Types:
                 if isinstance(node, (ast.ListComp, ast.SetComp, ast.GeneratorExp, ast.DictComp)):
                     for g in node.generators:
                         self._bind_target(fn, g.target, self._elem_type(self.type_of(fn, g.iter, env)), env)
+        # un-annotated parameters: take the type of the argument when every call site in the module agrees
+        if not fn.is_lambda and not fn.module.is_test and any(env.get(p.name) is UNKNOWN for p in fn.params):
+            self._params_from_call_sites(fn, env)
         return env
+
+    def _params_from_call_sites(self, fn: FunctionInfo, env):
+        plain = fn.name
+        if fn.cls is not None and plain.startswith("_" + fn.cls.name.lstrip("_") + "__"):
+            plain = plain[len("_" + fn.cls.name.lstrip("_")):]
+        params = [p for p in fn.params]
+        offset = 1 if (fn.binds_self and fn.cls is not None) else 0
+        found: Dict[str, list] = {}
+        for g in self.p.functions.values():
+            if g.module is not fn.module or g is fn or g.is_lambda:
+                continue
+            for node in ast.walk(g.node):
+                if not isinstance(node, ast.Call):
+                    continue
+                f = node.func
+                name = f.attr if isinstance(f, ast.Attribute) else f.id if isinstance(f, ast.Name) else None
+                if name not in (plain, fn.name):
+                    continue
+                if any(isinstance(a, ast.Starred) for a in node.args):
+                    continue
+                for i, a in enumerate(node.args):
+                    j = i + offset
+                    if j < len(params) and env.get(params[j].name) is UNKNOWN:
+                        try:
+                            t = self.type_of(g, a)
+                        except RecursionError:      # pragma: no cover
+                            t = UNKNOWN
+                        found.setdefault(params[j].name, []).append(t)
+                for kw in node.keywords:
+                    if kw.arg and env.get(kw.arg) is UNKNOWN and any(p.name == kw.arg for p in params):
+                        found.setdefault(kw.arg, []).append(self.type_of(g, kw.value))
+        for name, ts in found.items():
+            known = [t for t in ts if t is not UNKNOWN]
+            if known and len(known) == len(ts) and all(t == known[0] for t in known):
+                env[name] = known[0]
 
     def _bind_name(self, name: str, t, env):
         if t is UNKNOWN:
